@@ -180,6 +180,12 @@ def run(ctx):
             ctx.ob('INIT-VALIDATE', '%s:%s#%d' % (g.name, g.s(d)[:40], k), ok, g.loc(n), 'divisor %s %s' % (g.s(d), 'proven >= 1 (%s..%s)' % (bb.lo, bb.hi) if ok else 'NOT proven non-zero (%r)' % bb), None)
     ctx.require(ninit >= 3, 'only %d geometry divisions by caller-supplied values found in init functions' % ninit)
 
+    ctx.rule('TABLE-INDEX', 'every subscript of a file-scope table (format tables, error table, G.711 / ADPCM step tables, channel layouts ...) with a non-constant index is proved inside the table by A-PENT '
+             '(guards, clamps, masks, index type, return range of clamp helpers); the subscripts whose bound depends on array contents are listed in tables/table_index.tsv with one written argument each; '
+             'vendored codec directories (GSM610, G72x, ALAC) are not judged', floor=70)
+    from engine.tableindex import table_index
+    n_ti, n_tin = table_index(ctx, prog, eff)
+    ctx.require(n_ti >= 70, 'only %d table subscripts found' % n_ti)
     ctx.rule('GEOM-LINK', 'block codecs whose decode loop is bounded by blocksize while the sample buffer is sized by samplesperblock (MS ADPCM, WAV IMA ADPCM): the reader init rejects a header in which '
              'samplesperblock is smaller than the count that blocksize implies - the rejecting test `samplesperblock OP count` (count computed from blocksize in the same function) has OP in '
              '{!=, <, <=} and its then-branch returns an error', floor=2)
